@@ -317,6 +317,55 @@ theorem C15_quote_any_string_scans_back (m : Bool) (is : List QItem) (h : ∀ i 
     ∃ cs, quoteItems is ++ rest = '"' :: cs ∧ scanTok m '"' cs = .tok (.str (some (itemsBytes is))) rest :=
   scanTok_quoteItems m is h rest
 
+/-- String slices of ARBITRARY strings, from the text: what StringSliceFlag.String prints - every element quoted by
+strconv.Quote - parses back to exactly those byte strings. -/
+theorem C15_slice_text_any (xs : List (List QItem)) (h : ∀ x ∈ xs, ∀ i ∈ x, i.ok) :
+    sliceText (printSliceItems xs) = some (.ok (xs.map itemsBytes)) := by
+  have hscan : scanText false (printSliceItems xs) = some (canonSlice (xs.map itemsBytes)) := by
+    rw [printSliceItems_wrender, ← qslicePieces_toks]
+    exact scanText_wrender false _ (qslicePieces_renderable false xs h)
+  cases xs with
+  | nil => simp [sliceText, printSliceItems]
+  | cons x xs =>
+    have hne : (printSliceItems (x :: xs)).isEmpty = false := by
+      cases xs <;> simp [printSliceItems, quoteItems]
+    simp only [sliceText, hne, hscan, Option.map_some, stringSlice]
+    simpa using C15_slice_tokens ((x :: xs).map itemsBytes)
+
+/-- ... sets (elements pairwise different as byte strings) ... -/
+theorem C15_set_text_any (xs : List (List QItem)) (h : ∀ x ∈ xs, ∀ i ∈ x, i.ok) (hnd : (xs.map itemsBytes).Nodup) :
+    setText (printSliceItems xs) = some (.ok (xs.map itemsBytes)) := by
+  have hscan : scanText false (printSliceItems xs) = some (canonSlice (xs.map itemsBytes)) := by
+    rw [printSliceItems_wrender, ← qslicePieces_toks]
+    exact scanText_wrender false _ (qslicePieces_renderable false xs h)
+  cases xs with
+  | nil => simp [setText, printSliceItems]
+  | cons x xs =>
+    have hne : (printSliceItems (x :: xs)).isEmpty = false := by
+      cases xs <;> simp [printSliceItems, quoteItems]
+    simp only [setText, hne, hscan, Option.map_some, stringSet]
+    simpa using C15_set_tokens ((x :: xs).map itemsBytes) hnd
+
+/-- ... and string maps / string-to-string-slice maps (non-empty keys; distinct keys for the plain map). -/
+theorem C15_map_text_any (kvs : List (List QItem × List QItem)) (h : ∀ p ∈ kvs, (∀ i ∈ p.1, i.ok) ∧ (∀ i ∈ p.2, i.ok))
+    (hk : ((kvs.map fun p => (itemsBytes p.1, itemsBytes p.2)).map (·.1)).Nodup)
+    (hne : ∀ p ∈ kvs.map (fun p => (itemsBytes p.1, itemsBytes p.2)), p.1 ≠ []) :
+    mapText (printMapItems kvs) = some (.ok (kvs.map fun p => (itemsBytes p.1, itemsBytes p.2))) := by
+  have hscan : scanText true (printMapItems kvs) = some (canonMap (kvs.map fun p => (itemsBytes p.1, itemsBytes p.2))) := by
+    rw [printMapItems_wrender, ← qmapPieces_toks]
+    exact scanText_wrender true _ (qmapPieces_renderable kvs h)
+  simp only [mapText, hscan, Option.map_some]
+  exact congrArg some (C15_map_tokens _ hk hne)
+
+theorem C15_multimap_text_any (kvs : List (List QItem × List QItem)) (h : ∀ p ∈ kvs, (∀ i ∈ p.1, i.ok) ∧ (∀ i ∈ p.2, i.ok))
+    (hne : ∀ p ∈ kvs.map (fun p => (itemsBytes p.1, itemsBytes p.2)), p.1 ≠ []) :
+    multiMapText (printMapItems kvs) = some (.ok (kvs.map fun p => (itemsBytes p.1, itemsBytes p.2))) := by
+  have hscan : scanText true (printMapItems kvs) = some (canonMap (kvs.map fun p => (itemsBytes p.1, itemsBytes p.2))) := by
+    rw [printMapItems_wrender, ← qmapPieces_toks]
+    exact scanText_wrender true _ (qmapPieces_renderable kvs h)
+  simp only [multiMapText, hscan, Option.map_some]
+  exact congrArg some (C15_multimap_tokens _ hne)
+
 /-- for an ASCII string this is `C15_quote_scans_back`: the items are its characters -/
 theorem C15_quote_items_ascii (s : S) : quoteItems (s.map QItem.ascii) = quote s ∧ itemsBytes (s.map QItem.ascii) = s :=
   quoteItems_ascii s
